@@ -148,12 +148,16 @@ pub fn scenario(initial: usize, max: usize, n: usize, gap_us: u64, idx: usize) -
 /// `panics` connections whose handler panics (one after the other, each seen closed by its client), then `max` connections that
 /// stay open: all of them must get into service although nothing else happens; afterwards listen() must drain and return.
 pub fn crash_scenario(initial: usize, max: usize, panics: usize, idx: usize) -> Result<serde_json::Value, String> {
+    // every other scenario ends through the idle timeout instead of the stop flag: the panicked connections are over, so they
+    // must not keep the server "busy" for ever
+    let by_timeout = idx % 2 == 1;
     let dir = tmpdir(&format!("poolcrash{}", idx));
     let path = dir.join("s");
     let addr = format!("unix:{}", path.display());
     let obs: Arc<Obs> = Default::default();
     let stop = Arc::new(AtomicBool::new(false));
-    let cfg = ListenConfig { initial_worker_threads: initial, max_worker_threads: max, idle_timeout: 0, stop_listening: Some(stop.clone()) };
+    let cfg = ListenConfig { initial_worker_threads: initial, max_worker_threads: max, idle_timeout: if by_timeout { 2 } else { 0 },
+                             stop_listening: if by_timeout { None } else { Some(stop.clone()) } };
     let h = GateHandler { obs: obs.clone() };
     let a2 = addr.clone();
     let th = std::thread::spawn(move || varlink::listen(h, &a2, &cfg));
@@ -215,10 +219,16 @@ pub fn crash_scenario(initial: usize, max: usize, panics: usize, idx: usize) -> 
     let joined = wait_until(|| th.is_finished(), Duration::from_secs(10));
     if joined {
         match th.join() {
-            Ok(Ok(())) => {}
+            Ok(Ok(())) if !by_timeout => {}
+            Ok(Err(ref e)) if by_timeout && matches!(e.kind(), varlink::ErrorKind::Timeout) => {}
+            Ok(Ok(())) => {
+                if result.is_ok() {
+                    result = Err("listen() without a stop flag returned Ok".into());
+                }
+            }
             Ok(Err(e)) => {
                 if result.is_ok() {
-                    result = Err(format!("listen() returned an error after the stop flag was set ({} handler panics earlier): {}", panics, e));
+                    result = Err(format!("listen() returned an error after {} ({} handler panics earlier): {}", if by_timeout { "the idle period" } else { "the stop flag was set" }, panics, e));
                 }
             }
             Err(_) => {
@@ -228,7 +238,8 @@ pub fn crash_scenario(initial: usize, max: usize, panics: usize, idx: usize) -> 
             }
         }
     } else if result.is_ok() {
-        result = Err(format!("listen() did not return within 10 s after the stop flag was set and all clients closed ({} handler panic(s) earlier)", panics));
+        result = Err(format!("listen() did not return within 10 s after {} and all clients closed ({} handler panic(s) earlier)",
+            if by_timeout { "its idle timeout of 2 s had passed" } else { "the stop flag was set" }, panics));
     }
     let _ = std::fs::remove_dir_all(&dir);
     result.map(|_| json!({"initial": initial, "max": max, "panics": panics}))
